@@ -403,6 +403,9 @@ func (m *Machine) symbolicValue(t types.Type, hint string) Val {
 		if _, isStruct := u.Elem().Underlying().(*types.Struct); isStruct {
 			// a distinct input object with symbolic contents
 			id := m.NewCell(m.symbolicValue(u.Elem(), hint))
+			if nullablePointee[typeKey(u.Elem())] {
+				return &PtrV{Cell: id, Elem: u.Elem(), Nil: E.D.Fresh(hint+"_isnil", SBool)}
+			}
 			return &PtrV{Cell: id, Elem: u.Elem()}
 		}
 		return &OpaqueV{Tag: "ptr:" + typeKey(t), Typ: t}
@@ -897,7 +900,12 @@ func (m *Machine) isNilTerm(v Val) *Term {
 	switch x := v.(type) {
 	case *NilV:
 		return True
-	case *PtrV, *ClosureV, *IterV, *MapV, *GlobalPtrV:
+	case *PtrV:
+		if x.Nil != nil && len(x.Path) == 0 {
+			return x.Nil
+		}
+		return False
+	case *ClosureV, *IterV, *MapV, *GlobalPtrV:
 		return False
 	case *SymPtrV:
 		return False
@@ -1160,6 +1168,9 @@ func (m *Machine) flatten(v Val, t types.Type) []*Term {
 		if _, isStruct := u.Elem().Underlying().(*types.Struct); isStruct {
 			switch p := v.(type) {
 			case *PtrV, *SymPtrV:
+				if pp, isP := p.(*PtrV); isP && pp.Nil != nil {
+					panic(unsupported("a possibly-nil pointer stored by value"))
+				}
 				m.E.Assume("A-VALSEQ", "a struct with pointer fields that is stored in a slice (e.g. []AllianceValidator) is stored by value: the pointees are copied at the store and re-materialised as fresh objects at each load; sound as long as nothing relies on a write through one reference being seen through the slice element (holds in RebalanceBondTokenWeights: each element is loaded once)")
 				return m.flatten(m.Load(p), u.Elem())
 			}
